@@ -241,9 +241,9 @@ func DataflowCheck(prop string) {
 	r := ev.New(prop, "exploration")
 	if prop == "C02" {
 		// the ordering check explores more schedules per program
-		r.SetBudget(170*time.Second, 30*time.Minute)
+		r.SetBudget(260*time.Second, 30*time.Minute)
 	} else {
-		r.SetBudget(100*time.Second, 25*time.Minute)
+		r.SetBudget(200*time.Second, 25*time.Minute)
 	}
 	core.VerifQuiet()
 	if r.ReplayPath != "" {
